@@ -13,7 +13,7 @@ from vlib.coqlit import *
 ID = "C16"
 COQ_PROPS = "Props/C16.v"
 THEOREMS = ["C16_roundtrip", "C16_blank", "C16_malformed", "C16_prot", "C16_dict_set",
-            "C16_int_dec", "C16_int_hex", "C16_float_repr", "C16_str_single_quote", "C16_bare_1e5_is_hex"]
+            "C16_int_dec", "C16_int_hex", "C16_float_repr", "C16_str_single_quote", "C16_str_double_quote", "C16_bare_1e5_is_hex"]
 ALLOWED_AXIOMS = []
 TRUSTED_BASE = [
     "Common/PyNum.v py_int / py_int16 / py_float / py_strip as models of CPython int(s) / int(s,16) / float(s) / str.strip "
@@ -598,10 +598,10 @@ class Prot:
         n = 260 if tier == "quick" else 5000
         out = []
         for i in range(n):
-            pkey = rng.choice(["MrPhoenixProtocol"] * 6 + ["MrProtocol"] * 6 + ["MrProt", ""])
+            pkey = rng.choice(["MrPhoenixProtocol"] * 12 + ["MrProtocol"] * 12 + ["MrProt", "", "mrprotocol"])
             d = D2 if pkey == "MrPhoenixProtocol" else D1
             nl = rng.choice([0, 1, 2, 3, 4, 6, 8, 12])
-            p_bad = rng.choice([0, 0, 0, 0.08])
+            p_bad = rng.choice([0, 0, 0, 0.1, 0.3])
             lines = []
             for _ in range(nl):
                 for _try in range(40):
